@@ -65,7 +65,7 @@ func c18R1(c *core.Ctx) {
 				return false, false
 			}
 			if ex, ok := at.V.(*ssa.Extract); ok && ex.Index == 1 {
-				if ta, ok := ex.Tuple.(*ssa.TypeAssert); ok && ta.X == sub {
+				if ta, ok := ex.Tuple.(*ssa.TypeAssert); ok && denotesParam(f, ta.X, sub, 0) {
 					return false, true
 				}
 			}
@@ -75,7 +75,7 @@ func c18R1(c *core.Ctx) {
 			return false, false
 		}}
 		g := eng.Guarded(n, admitted)
-		ok := !eng.InLoop(n) && a[1] == sub && a[2] == f.Params[2] && g.Guarded && g.Edges >= 2
+		ok := !eng.InLoop(n) && denotesParam(f, a[1], sub, 0) && denotesParam(f, a[2], f.Params[2], 0) && g.Guarded && g.Edges >= 2
 		ok2, w := eng.MustFollow(f, []eng.Pred{admitted}, func(i ssa.Instruction) bool { return i == n.(ssa.Instruction) })
 		c.Check(ok && ok2, rule, name+":notifies exactly the admitted transitions", n.Pos(), "one notification per admitted transition, none otherwise", fmt.Sprintf("the notifier is not called exactly once for exactly the admitted transitions: %v", w))
 		if k.name == "Subscribe" {
